@@ -410,6 +410,21 @@ def rule_raise(ctx, rep):
                 if entry is None:
                     # the reviewed refusal may have moved into a helper of the same class / module
                     entry = owner_level.get((_owner(fi.short), what))
+                if entry is None:
+                    # ... or into a module-level helper that only functions of the reviewed owner call
+                    owners, seen_, todo = set(), {fi.qualname}, [fi]
+                    while todo:
+                        cur = todo.pop()
+                        for c, outs in cg.edges.items():
+                            if cur.qualname in outs and c in model.functions and c not in seen_:
+                                seen_.add(c)
+                                cf = model.functions[c]
+                                if cf.cls is None and cf.parent is None and cf.modname == fi.modname:
+                                    todo.append(cf)      # another plain helper of the module: look at its callers
+                                else:
+                                    owners.add(_owner(cf.short) if cf.modname == fi.modname else cf.short)
+                    if len(owners) == 1:
+                        entry = owner_level.get((owners.pop(), what))
                 ok = entry is not None
                 if ok:
                     rep.audit_used.append({'key': k, 'reason': entry['reason']})
